@@ -119,7 +119,7 @@ static void enumerate(Result& R, const Setup& su, int depth, int max_cells_with_
 static void explore(Result& R) {
     const bool th = R.args.thorough();
     std::vector<Setup> setups = {{2, 0}, {3, 0}, {3, 1}, {3, 2}, {3, 3}, {2, 0, 1}, {3, 0, 1}, {3, 0, 2}, {2, 4}, {3, 4}}; if (th) { setups.push_back({4, 0}); setups.push_back({3, 2, 2}); setups.push_back({3, 1, 1}); }
-    for (auto& su : setups) enumerate(R, su, (th && su.ncells < 4) ? 3 : 2, th ? 4 : 3);   // thorough: depth 3 for 2-3 cells, depth 2 (81 + 81*81 histories) for 4 cells
+    for (auto& su : setups) enumerate(R, su, (th && su.ncells < 4 && su.incoming == 0 && su.kind != 4) ? 3 : 2 /* the id-assignment and sampling setups at depth 2 in both tiers */, th ? 4 : 3);   // thorough: depth 3 for 2-3 cells, depth 2 (81 + 81*81 histories) for 4 cells
     sw::cleanup_scratch();
     R["evaluations"] = R["transitions"]; R["distinct_nontrivial"] = R["states"]; /* replaced by the measured union of final-population keys in the driver */ R["traces_validated_against_impl"] = R["transitions"];
     if (R.args.nshards == 1 && (R["divisions_executed"] == 0 || R["removals_executed"] == 0)) R.internal_error = "no division or no removal was ever executed (vacuous)";
